@@ -19,7 +19,8 @@ CONSTANTS Variant, LaneStrict
 Avx512 == Variant \in {"avx512_t1", "avx512_t2"}
 Avx2 == Variant \in {"avx2_t1", "avx2_t2"}
 ShaNi == Variant \in {"sse_t2", "sse_t3", "avx2_t2"}      \* SHA-NI 2-lane managers in use (SHA-1: SSE only)
-SU(n) == [fam |-> "simple", L |-> n, blk |-> 64, pf |-> ""]
+SU(n) == [fam |-> "simple", L |-> n, blk |-> 1, pf |-> ""]
+ZU(n) == [fam |-> "simple", L |-> n, blk |-> 4, pf |-> ""]       \* ZUC-EEA3: whole keystream words
 HU(n, b) == [fam |-> "hmac", L |-> n, blk |-> b, pf |-> ""]
 PU(n, rule) == [fam |-> "phased", L |-> n, blk |-> 16, pf |-> rule]
 MU(n, b) == [fam |-> "shamb", L |-> n, blk |-> b, pf |-> ""]
@@ -27,7 +28,7 @@ CbcUnits == {"cbc16", "cbc24", "cbc32"}
 CfbUnits == {"cfb16", "cfb24", "cfb32"}
 DesUnits == {"des_e", "des_d", "des3_e", "des3_d"}
 UnitNames == CbcUnits \cup CfbUnits \cup DesUnits \cup {"hmac1", "hmac224", "hmac256", "hmac384", "hmac512", "hmacmd5"}
-             \cup {"xcbc", "cmac128", "cmac256"} \cup {"sha1", "sha224", "sha256", "sha384", "sha512"}
+             \cup {"zuc128", "zuc256"} \cup {"ccm128", "ccm256"} \cup {"xcbc", "cmac128", "cmac256"} \cup {"sha1", "sha224", "sha256", "sha384", "sha512"}
 UnitsFor ==
     [un \in UnitNames |->
        CASE un \in CbcUnits -> SU(IF Variant = "avx512_t2" THEN 16 ELSE 8)
@@ -37,9 +38,11 @@ UnitsFor ==
                 HU(IF Avx512 THEN 16 ELSE IF Avx2 THEN 8 ELSE IF Variant = "sse_t1" THEN 4 ELSE 2, 64)
          [] un \in {"hmac224", "hmac256"} ->
                 HU(IF Avx512 THEN 16 ELSE IF ShaNi THEN 2 ELSE IF Avx2 THEN 8 ELSE 4, 64)
+         [] un \in {"zuc128", "zuc256"} -> ZU(IF Avx512 THEN 16 ELSE IF Avx2 THEN 8 ELSE 4)
          [] un = "sha1" -> MU(IF Avx512 THEN 16 ELSE IF Avx2 THEN 8 ELSE IF Variant = "sse_t1" THEN 4 ELSE 2, 64)
          [] un \in {"sha224", "sha256"} -> MU(IF Avx512 THEN 16 ELSE IF ShaNi THEN 2 ELSE IF Avx2 THEN 8 ELSE 4, 64)
          [] un \in {"sha384", "sha512"} -> MU(IF Avx512 THEN 8 ELSE IF Avx2 THEN 4 ELSE 2, 128)
+         [] un \in {"ccm128", "ccm256"} -> PU(IF Variant = "avx512_t2" THEN 16 ELSE 8, "ccm")
          [] un = "xcbc" -> PU(IF Variant = "avx512_t2" THEN 16 ELSE IF Avx512 \/ Avx2 THEN 8 ELSE 4, "xcbc")
          [] un \in {"cmac128", "cmac256"} -> PU(IF Variant = "avx512_t2" THEN 16 ELSE 8, "cmac")
          [] un \in {"hmac384", "hmac512"} -> HU(IF Avx512 THEN 8 ELSE IF Avx2 THEN 4 ELSE 2, 128)
@@ -47,7 +50,7 @@ UnitsFor ==
 
 CO == INSTANCE ChainOps WITH U <- UnitsFor, Fuel <- 2000, LogStages <- FALSE, LegacyCustomFlush <- FALSE
 
-\* suite [mode, klen, dir, hash, order] -> units.  Modes: 1 CBC, 2 CTR, 3 NULL, 7 DES, 10 3DES, 12 ECB, 26 CFB;
+\* suite [mode, klen, dir, hash, order] -> units.  Modes: 1 CBC, 2 CTR, 3 NULL, 6 CUSTOM, 7 DES, 10 3DES, 12 ECB, 14 ZUC-EEA3, 26 CFB;
 \* hashes 1..5 HMAC-SHA1/224/256/384/512, 7 HMAC-MD5, 6 XCBC, 12/18 CMAC(-bitlen), 27 CMAC-256, 13..17 plain SHA-1/224/256/384/512, 8 NULL; direction 1 encrypt; order 2 = hash then cipher
 KeyTag(k) == CASE k = 16 -> "16" [] k = 24 -> "24" [] OTHER -> "32"
 CipherUnit(su) ==
@@ -56,16 +59,19 @@ CipherUnit(su) ==
       [] su[1] = 7 -> (IF su[3] = 1 THEN "des_e" ELSE "des_d")
       [] su[1] = 10 -> (IF su[3] = 1 THEN "des3_e" ELSE "des3_d")
       [] su[1] = 6 -> "custom"
+      [] su[1] = 14 -> (IF su[2] = 16 THEN "zuc128" ELSE "zuc256")
       [] OTHER -> "sync"
 HashUnit(su) ==
     CASE su[4] = 1 -> "hmac1" [] su[4] = 2 -> "hmac224" [] su[4] = 3 -> "hmac256" [] su[4] = 4 -> "hmac384"
       [] su[4] = 5 -> "hmac512" [] su[4] = 7 -> "hmacmd5" [] su[4] = 6 -> "xcbc"
       [] su[4] \in {12, 18} -> "cmac128" [] su[4] = 27 -> "cmac256"
       [] su[4] = 10 -> "custom"
+      [] su[4] = 11 -> (IF su[2] = 16 THEN "ccm128" ELSE "ccm256")         \* AES-CCM: CBC-MAC lanes, the CTR part is synchronous
       [] su[4] = 13 -> "sha1" [] su[4] = 14 -> "sha224" [] su[4] = 15 -> "sha256" [] su[4] = 16 -> "sha384" [] su[4] = 17 -> "sha512"
       [] OTHER -> "sync"
 InfoOf(t) == [cu |-> CipherUnit(t.su), hu |-> HashUnit(t.su), hc |-> t.su[5] = 2, len |-> t.len, hlen |-> t.hlen,
-              cf |-> IF "cfail" \in DOMAIN t THEN t.cfail ELSE 0]
+              cf |-> IF "cfail" \in DOMAIN t THEN t.cfail ELSE 0,
+              aad |-> IF "aadlen" \in DOMAIN t THEN t.aadlen ELSE 0]
 
 VARIABLES cm,     \* machine state of ChainOps
           cinfo   \* job table
@@ -113,7 +119,8 @@ ChainStep ==
                                ELSE LET i == CHOOSE i \in 1 .. k : t.ids[i] + 1 = j IN
                                     [cu |-> CipherUnit(t.sus[i]), hu |-> HashUnit(t.sus[i]), hc |-> t.sus[i][5] = 2,
                                      len |-> t.lens[i], hlen |-> t.hlens[i],
-                                     cf |-> IF "cfails" \in DOMAIN t THEN t.cfails[i] ELSE 0]]
+                                     cf |-> IF "cfails" \in DOMAIN t THEN t.cfails[i] ELSE 0,
+                                     aad |-> IF "aadlens" \in DOMAIN t THEN t.aadlens[i] ELSE 0]]
                      r1 == SubmitAll(inf, [ms |-> cm, ok |-> TRUE], t.ids, 1)
                      pend == [i \in 1 .. Len(pending[m]) |-> pending[m][i] + 1] \o [i \in 1 .. k |-> t.ids[i] + 1]
                      lead == Head(pend) \in Done(r1.ms)
